@@ -1,5 +1,5 @@
 """C06 - disjunction, if-then-else and negation follow standard semantics."""
-from lib import semcheck, progs
+from lib import semcheck, progs, progs_r4
 from lib.semcheck import impl, model_expr, oracle, describe, shrink, IMPORTS
 
 ID = 'C06'
@@ -39,6 +39,17 @@ def gen(rng, tier):
     # exhaustive small scope of the shape "continuation duplication":  (A ; B), K  /  (C -> T ; E), K  /  (C -> T), K  where K is a
     # negation / if-then-else / if-then whose condition has a cut of its own (origin "exhaustive-contdup")
     cases.extend(progs.exhaustive_contdup_cases(tier != 'quick'))
+    # round 4: (a) \\+ directly over the builtins (= \\= call once, \\+ \\+) with unifiable arguments, the variables observed afterwards -
+    # random (Opts.negbuiltin) and exhaustive over a small set of argument pairs, wrappers and observers;  (b) three levels of
+    # local-cut constructs: a cut in a condition / negation, a committing if-then-else / negation in its else branch / continuation,
+    # all inside a further if-then-else / negation whose else branch is visible - random (Opts.localcut3) and exhaustive
+    for _ in range(n // 4):
+        o = progs.Opts(control=True, cut=rng.random() < 0.5, opaque_cut=rng.random() < 0.6, builtins=False, negbuiltin=rng.choice([0.2, 0.4]),
+                       localcut3=rng.choice([0.0, 0.3, 0.5]), numerals=rng.choice([0.0, 0.2]), constcmp=rng.choice([0.0, 0.15]))
+        p = progs.gen_program(rng, o)
+        cases.append({'clauses': p['clauses'], 'queries': p['queries'], 'shape': 'round4'})
+    cases.extend(progs_r4.exhaustive_neg_builtin_cases())
+    cases.extend(progs_r4.exhaustive_local_cut3_cases(tier != 'quick'))
     return cases
 
 def builtin_corpus():
@@ -90,6 +101,8 @@ def nontrivial(case, io):
 def distribution(cases, obs):
     d = semcheck.stats(cases, obs)
     d['exhaustive_small_scope_bodies'] = sum(1 for c in cases if c.get('origin') == 'exhaustive')
+    d['exhaustive_negated_builtin_programs'] = sum(1 for c in cases if c.get('origin') == 'exhaustive-neg-builtin')
+    d['exhaustive_three_level_local_cut_programs'] = sum(1 for c in cases if c.get('origin') == 'exhaustive-local-cut3')
     d['exhaustive_continuation_duplication_bodies'] = sum(1 for c in cases if c.get('origin') == 'exhaustive-contdup')
     d['programs_with_construct_after_disjunction_or_ite'] = sum(1 for c in cases if any(progs.has_dup_continuation(b) for _, _, b in c['clauses']))
     d['programs_with_local_cut_construct_in_duplicated_continuation'] = sum(1 for c in cases if any(progs.has_dup_continuation(b, True) for _, _, b in c['clauses']))
